@@ -74,10 +74,12 @@ func (p *Program) Body() func() {
 			env.Completed, env.DoneAt = true, vrt.Elapsed()
 			// losing hedge attempts and timed-out invocations may still be running: let them finish, so
 			// that the next execution starts from a quiescent state and the logs do not mix
+			// (an attempt spawned at the very instant the execution returned has not even started yet:
+			// the first sleep lets it run)
+			vrt.Sleep(int64(p.Gap) + 1)
 			for i := 0; env.busy() && i < 100; i++ {
 				vrt.Sleep(50)
 			}
-			vrt.Sleep(int64(p.Gap) + 1)
 			vrt.Mark(fmt.Sprintf("#%d result=(%d,%s) t=%d invs=%d events=[%s]", k, env.ResV, errStr(env.ResE), env.DoneAt, len(env.Invs), env.eventSummary()))
 			if msg := env.checkTop(); msg != "" {
 				vrt.Fail(fmt.Sprintf("execution %d: %s", k, msg))
